@@ -315,8 +315,12 @@ func FilterPMTPacketsToPids(packets []*packet.Packet, pids []int) ([]*packet.Pac
 
 	pmtPid := packet.Pid(packets[0])
 	var missingPids []int
+	requested := 0
 	for _, pid := range pids {
 		// Ignore PAT and PMT PIDS if they are included.
+		if pid != PatPid && pid != pmtPid {
+			requested++
+		}
 		if !unfilteredPMT.PIDExists(pid) && pid != PatPid && pid != pmtPid {
 			missingPids = append(missingPids, pid)
 		}
@@ -329,7 +333,8 @@ func FilterPMTPacketsToPids(packets []*packet.Packet, pids []int) ([]*packet.Pac
 	}
 
 	// Return nil packets and an error if none of the PIDs being filtered exist in the PMT.
-	if len(missingPids) == len(pids) {
+	// (the PAT and PMT PIDs do not count as PIDs being filtered)
+	if len(missingPids) > 0 && len(missingPids) == requested {
 		return nil, returnError
 	}
 
